@@ -880,6 +880,34 @@ example :
 
 def isOk {α} (e : Except Err α) : Bool := match e with | .ok _ => true | .error _ => false
 
+/-! ## class-based views answer 405 with exactly the methods they serve -/
+
+/-- **view_405_complete.** A class-based view calls a handler exactly for the standard methods
+the class defines; every other method token — extension methods, names of other attributes of
+`View`, different letter case — gets 405 whose Allow set is exactly the standard methods the
+class defines (no call, no other outcome). -/
+theorem view_405_complete (defined : List Str) (hid : Nat) (d : Dict) (m : Str) :
+    (Gen.C14.methAll.contains m = true ∧ defined.contains m = true →
+      viewDispatch defined hid d m = .found (hid + 1 + idxOf m Gen.C14.methAll) d) ∧
+    (¬ (Gen.C14.methAll.contains m = true ∧ defined.contains m = true) →
+      viewDispatch defined hid d m = .e405 (viewAllowed defined)) ∧
+    (∀ x, x ∈ viewAllowed defined ↔ x ∈ Gen.C14.methAll ∧ x ∈ defined) := by
+  refine ⟨?_, ?_, ?_⟩
+  · rintro ⟨h1, h2⟩
+    unfold viewDispatch
+    rw [h1, h2]
+    first | rfl | simp
+  · intro h
+    unfold viewDispatch
+    cases h1 : Gen.C14.methAll.contains m with
+    | false => simp
+    | true =>
+      cases h2 : defined.contains m with
+      | false => simp
+      | true => exact absurd ⟨h1, h2⟩ h
+  · intro x
+    simp [viewAllowed, List.mem_filter]
+
 /-! ## frozen applications -/
 
 /-- mounting on a frozen application is always refused (and, the result being a value, leaves
